@@ -826,6 +826,57 @@ func runSubstCode() {
 			}
 		}
 	})
+	// Two-character changes after which ONE of the two check characters verifies and the other does
+	// not: (1) a wrong C with K computed over the data followed by that wrong C; (2) a data character
+	// replaced, C left as it was, K fitted; (3) a data character replaced, C recomputed, K left.
+	sweep(fmt.Sprintf("Code 93, one check character verifies and the other does not: %d reference symbols x {every wrong C with K fitted to it; every data position x every replacement with the old C and K fitted; the same with C recomputed and the old K}", len(s93)), len(s93), 1, func(l *mc.Local, i int) {
+		s := s93[i]
+		n := len(s.vals) - 2
+		fitK := func(vals []int, c int) int { // K over vals followed by c: weights 1 (c), 2.. cycling at 15
+			k, w := c, 2
+			for q := len(vals) - 1; q >= 0; q-- {
+				k += w * vals[q]
+				if w++; w > 15 {
+					w = 1
+				}
+			}
+			return k % 47
+		}
+		one := func(vv []int) {
+			cc, _ := ref.Code93Checks(vv[:n])
+			if (cc == vv[n]) == (fitK(vv[:n], vv[n]) == vv[n+1]) { // K is computed over the C the symbol shows
+				l.Count("code93 partial-check cases that verify both or neither (not judged here)", 1)
+				return
+			}
+			c := fcase{Kind: "code93", Vals: vv, Orig: s.text, Reader: "code93", Scale: 1, Path: "row"}
+			symbolCase(l, nil, &c)
+			l.Count("code93 cases where exactly one check character verifies", 1)
+		}
+		for c := 0; c <= 46; c++ {
+			if c == s.vals[n] {
+				continue
+			}
+			vv := append([]int(nil), s.vals...)
+			vv[n] = c
+			vv[n+1] = fitK(vv[:n], c)
+			one(vv)
+		}
+		for p := 0; p < n; p++ {
+			for v := 0; v <= 46; v++ {
+				if v == s.vals[p] {
+					continue
+				}
+				vv := append([]int(nil), s.vals...)
+				vv[p] = v
+				vv[n+1] = fitK(vv[:n], vv[n])
+				one(vv)
+				v3 := append([]int(nil), s.vals...)
+				v3[p] = v
+				v3[n], _ = ref.Code93Checks(v3[:n])
+				one(v3)
+			}
+		}
+	})
 	// Code 39 with the optional modulo-43 check character, reader created with usingCheckDigit
 	al := ref.Code39Alphabet
 	var data []string
